@@ -148,7 +148,7 @@ def check(case):
       else:
         got = ('ok', fc.continue_())
         exp_packet = 'continue'
-  except Exception as e:  # pylint: disable=broad-except
+  except (Exception, fk.RunawayError) as e:  # pylint: disable=broad-except
     got = ('exc', type(e).__name__, str(e))
     name = case['cmd'][0]
     arg = case['cmd'][1] if len(case['cmd']) > 1 else None
